@@ -513,9 +513,14 @@ theorem runOps_ids (ops : List StoreOp) : ∀ s : Store,
 
 /-! ### pipelines -/
 
+/-- the code's answer for the oracle's verdict: the documents, or OperationFailure -/
+def stagesVerdict : Option (List Val) → R (List Val)
+  | some out => .ok out
+  | none => .error .opFail
+
 theorem runPipeline_eq_spec (stages : List Stage) : ∀ (docs0 docs : List Val),
     (∀ st ∈ stages, stageReasons docs0 st = []) → (∀ d ∈ docs, d ∈ docs0) →
-    runPipeline stages docs = .ok (runStages stages docs) := by
+    runPipeline stages docs = stagesVerdict (runStages stages docs) := by
   induction stages with
   | nil => intro _ _ _ _; rfl
   | cons st rest ih =>
@@ -527,22 +532,20 @@ theorem runPipeline_eq_spec (stages : List Stage) : ∀ (docs0 docs : List Val),
     | sort spec =>
       have hok : SpecOk spec docs := specOk_mono (specOk_of_reasons spec docs0 hst) hsub
       simp only [runPipeline, Stage.apply, aggSort_eq_spec spec docs hok, bindR, runStages,
-        stageApply]
+        stageApply, Option.bind_some]
       exact ih docs0 _ hrest (fun d hd => hsub d ((isort_perm _ _).mem_iff.mp hd))
     | skip n =>
-      have hn : 0 ≤ n := by
-        by_cases hn : n < 0
-        · simp [stageReasons, hn] at hst
-        · omega
-      simp only [runPipeline, Stage.apply, bindR, runStages, stageApply, pyDropFrom_nonneg _ _ hn]
-      exact ih docs0 _ hrest (fun d hd => hsub d (List.mem_of_mem_drop hd))
+      by_cases hn : n < 0
+      · simp [runPipeline, Stage.apply, bindR, runStages, stageApply, hn, stagesVerdict]
+      · simp only [runPipeline, Stage.apply, bindR, runStages, stageApply, hn, if_false,
+          Option.bind_some]
+        exact ih docs0 _ hrest (fun d hd => hsub d (List.mem_of_mem_drop hd))
     | limit n =>
-      have hn : 0 ≤ n := by
-        by_cases hn : n < 0
-        · simp [stageReasons, hn] at hst
-        · omega
-      simp only [runPipeline, Stage.apply, bindR, runStages, stageApply, pyTakeTo_nonneg _ _ hn]
-      exact ih docs0 _ hrest (fun d hd => hsub d (List.mem_of_mem_take hd))
+      by_cases hn : n ≤ 0
+      · simp [runPipeline, Stage.apply, bindR, runStages, stageApply, hn, stagesVerdict]
+      · simp only [runPipeline, Stage.apply, bindR, runStages, stageApply, hn, if_false,
+          Option.bind_some]
+        exact ih docs0 _ hrest (fun d hd => hsub d (List.mem_of_mem_take hd))
 
 /-! ### a missing field sorts as null -/
 
